@@ -370,3 +370,59 @@ fn f_c19_1_set_signals_window() {
     unsafe { waitpid(pid, &mut status, 0) };
     assert!((status & 0x7f) == 0, "child killed by signal {} inside set_signals", status & 0x7f);
 }
+
+// ---------------------------------------------------------------- F-C06-2
+// a source (with additional lifecycle events) removes itself from its own callback and its event
+// processing then returns an error: the `?` left the batch loop before the "was it removed?" check, the
+// source stayed in the lifecycle set with an empty slot and the next dispatch hit unreachable!()
+// (noticed by a round-5 seeding sub-agent while probing error paths; C06.2 `failed=>removed-check`)
+struct FailsAfterRemoval {
+    ping: calloop::ping::PingSource,
+}
+impl calloop::EventSource for FailsAfterRemoval {
+    type Event = ();
+    type Metadata = ();
+    type Ret = ();
+    type Error = Box<dyn std::error::Error + Sync + Send>;
+    const NEEDS_EXTRA_LIFECYCLE_EVENTS: bool = true;
+    fn process_events<F>(&mut self, r: calloop::Readiness, t: calloop::Token, mut cb: F) -> std::result::Result<calloop::PostAction, Self::Error>
+    where
+        F: FnMut((), &mut ()),
+    {
+        self.ping.process_events(r, t, |_, _| cb((), &mut ())).map_err(|e| Box::new(e) as Self::Error)?;
+        Err(Box::<dyn std::error::Error + Sync + Send>::from("boom"))
+    }
+    fn register(&mut self, p: &mut calloop::Poll, f: &mut calloop::TokenFactory) -> calloop::Result<()> {
+        self.ping.register(p, f)
+    }
+    fn reregister(&mut self, p: &mut calloop::Poll, f: &mut calloop::TokenFactory) -> calloop::Result<()> {
+        self.ping.reregister(p, f)
+    }
+    fn unregister(&mut self, p: &mut calloop::Poll) -> calloop::Result<()> {
+        self.ping.unregister(p)
+    }
+    fn before_sleep(&mut self) -> calloop::Result<Option<(calloop::Readiness, calloop::Token)>> {
+        Ok(None)
+    }
+    fn before_handle_events(&mut self, _: calloop::EventIterator<'_>) {}
+}
+
+#[test]
+fn f_c06_2_removed_then_failed() {
+    let mut el = EventLoop::<Option<calloop::RegistrationToken>>::try_new().unwrap();
+    let h = el.handle();
+    let (p, ps) = calloop::ping::make_ping().unwrap();
+    let h2 = h.clone();
+    let tok = h
+        .insert_source(FailsAfterRemoval { ping: ps }, move |_, _, d: &mut Option<calloop::RegistrationToken>| {
+            if let Some(t) = d.take() {
+                h2.remove(t);
+            }
+        })
+        .unwrap();
+    let mut data = Some(tok);
+    p.ping();
+    assert!(el.dispatch(Duration::from_millis(100), &mut data).is_err());
+    // the loop must stay usable (on the unfixed tree: panic "entered unreachable code")
+    assert!(el.dispatch(Duration::from_millis(10), &mut data).is_ok());
+}
